@@ -669,6 +669,47 @@ struct TimeZoneOwned {
     name: Option<String<TIME_ZONE_NAME_MAX>>,
 }
 
+/// verif (C16, stream s): the derived codec of the crate-private `TimeZoneOwned`, field by field
+#[cfg(feature = "verif")]
+pub mod verif_tlv {
+    use super::{String, TimeZoneOwned, TIME_ZONE_NAME_MAX};
+    use crate::error::{Error, ErrorCode};
+    use crate::tlv::{FromTLV, TLVElement, TLVTag, ToTLV};
+    use crate::utils::storage::WriteBuf;
+
+    pub fn enc_time_zone_owned(
+        offset: i32,
+        valid_at: u64,
+        name: Option<&str>,
+        buf: &mut [u8],
+    ) -> Result<usize, Error> {
+        let name = match name {
+            None => None,
+            Some(n) => {
+                let mut s = String::<TIME_ZONE_NAME_MAX>::new();
+                s.push_str(n).map_err(|_| ErrorCode::ConstraintError)?;
+                Some(s)
+            }
+        };
+        let v = TimeZoneOwned {
+            offset,
+            valid_at,
+            name,
+        };
+        let mut wb = WriteBuf::new(buf);
+        v.to_tlv(&TLVTag::Anonymous, &mut wb)?;
+        Ok(wb.as_slice().len())
+    }
+
+    pub fn dec_time_zone_owned<R>(
+        data: &[u8],
+        f: impl FnOnce(i32, u64, Option<&str>) -> R,
+    ) -> Result<R, Error> {
+        let v = TimeZoneOwned::from_tlv(&TLVElement::new(data))?;
+        Ok(f(v.offset, v.valid_at, v.name.as_deref()))
+    }
+}
+
 /// The persisted shape of [`TimeZoneStore`]: both `nonVolatile`-quality lists
 /// as one TLV blob under [`TIME_ZONE_KEY`].
 struct TimeZoneStoreData<const TIME_ZONE_MAX: usize, const DST_OFFSET_MAX: usize> {
